@@ -87,10 +87,11 @@ def finish(cx, level_text_extra=None, rule=None):
             continue
         seen.add(f["key"])
         case = dict(case)
-        if cx.module == "chan":
+        if case.get("_module", cx.module) == "chan" and "sched" in r:
             case["schedule"] = [s[:2] for s in r["sched"]]
             case.pop("random", None)
-        path = save_replay(pid, {"module": cx.module, "case": case, "fail": f})
+        mod = case.pop("_module", cx.module)
+        path = save_replay(pid, {"module": mod, "case": case, "fail": f})
         log("VIOLATION property=%s replay=%s" % (pid, path))
         log("  %s: %s" % (f["key"], f["msg"]))
         rc = 1
